@@ -175,6 +175,11 @@ static void walker_main(WalkerSpec const &w, int index, int nrep, int sock)
         o += num(m->bias_energy) + " ";
       }
       wr(sock, "V" + o);
+    } else if (cmd[0] == 'W') {  // heights of the walker's own hills kept in memory (keepHills on)
+      colvarbias_meta *m = dynamic_cast<colvarbias_meta *>(px->bias("m"));
+      std::string o;
+      if (m) for (auto const &hh : m->hills) o += num(hh.W) + " ";
+      wr(sock, "V" + o);
     } else if (cmd[0] == 'Z') {  // save state
       wr(sock, "V" + px->state_text());
     } else if (cmd[0] == 'Y') {  // save state, binary
@@ -848,6 +853,93 @@ static void meta_offgrid_run(OffCase const &c, std::string const &dir, Result &r
   if (chdir("..") != 0) { fprintf(stderr, "HARNESS-ERROR: chdir\n"); exit(2); }
 }
 
+// ---- well-tempered heights with two walkers ----
+// Both walkers sit at the same bin centre, so the bias there is the plain sum of the heights of the hills a walker knows of.
+// The height of each hill (read from the walker's own hills file) must be hillWeight * exp(-V / k dT) with V the bias at the
+// deposition point: its own earlier hills plus the first k hills of the peer, for some k between the number the peer had
+// published when the walker last synchronised and the number the peer had deposited.
+struct WtCase { int upd, L, pattern; };
+static void meta_wt_run(WtCase const &c, std::string const &dir, Result &r, std::string const &cj)
+{
+  g_meta_nogrids = false;
+  std::string cmd = "rm -rf '" + dir + "' && mkdir -p '" + dir + "'";
+  if (system(cmd.c_str()) || chdir(dir.c_str()) != 0) { fprintf(stderr, "HARNESS-ERROR: scratch\n"); exit(2); }
+  Controller ctl;
+  std::vector<WalkerSpec> specs(2);
+  for (int i = 0; i < 2; i++) {
+    specs[i].conf = "colvarsRestartFrequency 1000\n"
+                    "colvar {\n name d\n width 0.5\n lowerBoundary 0.0\n upperBoundary 12.0\n distance {\n group1 { atomNumbers 1 }\n group2 { atomNumbers 2 }\n }\n}\n"
+                    "metadynamics {\n name m\n colvars d\n hillWeight 1.0\n hillWidth 1.0\n newHillFrequency 1\n wellTempered on\n biasTemperature 1500.0\n multipleReplicas on\n replicaID w" + std::to_string(i) +
+                    "\n replicasRegistry registry.txt\n replicaUpdateFrequency " + std::to_string(c.upd) + "\n}\n";
+    specs[i].out_prefix = "w" + std::to_string(i);
+    specs[i].temperature = 300.0;
+  }
+  ctl.spawn(specs);
+  if (!ctl.fatal.empty()) { fprintf(stderr, "HARNESS-ERROR: %s\n", ctl.fatal.c_str()); exit(2); }
+  double const kdT = 0.001987191 * 1500.0;
+  std::vector<int> order;
+  for (int st = 0; st < c.L; st++) {
+    if (c.pattern == 0) { order.push_back(0); order.push_back(1); }
+    else if (c.pattern == 1) { order.push_back(1); order.push_back(0); }
+    else { order.push_back(0); if (st % 2) { order.push_back(1); order.push_back(1); } }
+  }
+  if (c.pattern == 2) while (std::count(order.begin(), order.end(), 1) < c.L) order.push_back(1);
+  long next[2] = {0, 0};
+  int deposited[2] = {0, 0}, flushed[2] = {0, 0}, known_lo[2] = {0, 0};
+  std::vector<std::pair<int, int>> range[2];   // per hill of each walker: [lo, hi] number of the peer's hills in V
+  bool failed = false;
+  for (size_t k = 0; k < order.size() && !failed; k++) {
+    int i = order[k], p = 1 - i;
+    long s = next[i]++;
+    ctl.start_step(i, s, 5.25, 0);
+    r.count("transitions");
+    if (!ctl.fatal.empty()) { r.violation("C14:meta:walker-died-or-hung", cj.substr(0, cj.size() - 1) + ",\"problem\":\"" + jesc(ctl.fatal) + "\"}"); failed = true; break; }
+    if (ctl.w[i].errors) { r.violation("C14:meta:error-reported-with-complete-peer-files", cj.substr(0, cj.size() - 1) + ",\"error\":\"" + jesc(ctl.w[i].errtxt.substr(0, 200)) + "\"}"); failed = true; break; }
+    if (s >= 1) { range[i].push_back({known_lo[i], deposited[p]}); deposited[i]++; }
+    if (s > 0 && (s % c.upd) == 0) { flushed[i] = deposited[i]; known_lo[i] = flushed[p]; }
+  }
+  // the heights of each walker's own hills, from its hills file (complete up to the walker's last synchronisation; the file is
+  // started anew when the walker writes its state, which these short runs never do)
+  std::vector<double> h[2];
+  for (int i = 0; i < 2 && !failed; i++) {
+    std::ifstream f(("w" + std::to_string(i) + ".colvars.m.w" + std::to_string(i) + ".hills").c_str());
+    std::string tok;
+    while (f >> tok) if (tok == "weight") { double w; if (f >> w) h[i].push_back(w); }
+    if ((int) h[i].size() < flushed[i] || (int) h[i].size() > deposited[i]) {
+      r.violation("C14:meta:well-tempered:hills-file-does-not-hold-the-published-hills", cj.substr(0, cj.size() - 1) + ",\"walker\":" + std::to_string(i) + ",\"hills_in_file\":" + std::to_string(h[i].size()) + ",\"published\":" + std::to_string(flushed[i]) + ",\"deposited\":" + std::to_string(deposited[i]) + "}");
+      failed = true;
+    }
+  }
+  std::string all;
+  for (int i = 0; i < 2 && !failed; i++) {
+    int p = 1 - i;
+    double own = 0;
+    for (size_t j = 0; j < h[i].size() && !failed; j++) {
+      bool ok = false;
+      double peer = 0, without_peer = std::exp(-own / kdT);
+      for (int kk = 0; kk <= range[i][j].second && kk <= (int) h[p].size(); kk++) {
+        if (kk > 0) peer += h[p][kk - 1];
+        if (kk < range[i][j].first) continue;
+        double want = std::exp(-(own + peer) / kdT);
+        if (std::fabs(h[i][j] - want) <= 1e-9 * want) ok = true;
+      }
+      r.count("evaluations"); r.count("wt_heights_checked");
+      all += num(h[i][j]) + " ";
+      if (!ok) {
+        r.violation(std::string("C14:meta:well-tempered:hill-height-is-not-scaled-with-the-bias-of-all-walkers") + (std::fabs(h[i][j] - without_peer) <= 1e-9 * without_peer ? ":own-hills-only" : ""),
+                    cj.substr(0, cj.size() - 1) + ",\"walker\":" + std::to_string(i) + ",\"hill_number\":" + std::to_string(j + 1) + ",\"height\":" + num(h[i][j]) + ",\"height_from_own_hills_only\":" + num(without_peer) +
+                        ",\"peer_hills_known_at_least\":" + std::to_string(range[i][j].first) + ",\"peer_hills_deposited\":" + std::to_string(range[i][j].second) + "}");
+        failed = true;
+      }
+      own += h[i][j];
+    }
+  }
+  r.seen("states", fnv(cj + all));
+  r.seen("nontrivial", fnv(cj));
+  ctl.kill_all();
+  if (chdir("..") != 0) { fprintf(stderr, "HARNESS-ERROR: chdir\n"); exit(2); }
+}
+
 int main(int argc, char **argv)
 {
   Args args(argc, argv);
@@ -965,12 +1057,14 @@ int main(int argc, char **argv)
   for (int bd = 0; bd <= 1; bd++)
     for (int upd = 1; upd <= 2; upd++)
       for (int pat = 0; pat < (thorough ? 3 : 1); pat++) offc.push_back({18.25, 18.6, bd != 0, upd, 2, thorough ? 7 : 5, 6, pat});
+  std::vector<WtCase> wtc;
+  for (int upd = 1; upd <= 2; upd++) for (int pat = 0; pat < 3; pat++) wtc.push_back({upd, thorough ? 7 : 5, pat});
   if (getenv("C14_DEBUG")) {
     for (auto &c : abf) if (c.czar && c.n == 3 && !c.rendezvous) { std::vector<int> none; AbfOutcome o = abf_execute(c, none); fprintf(stderr, "problem: %s\n", o.problem.c_str()); }
     return 0;
   }
   Result total;
-  size_t njobs = abf.size() + mj.size() + offc.size();
+  size_t njobs = abf.size() + mj.size() + offc.size() + wtc.size();
   bool ok = run_sharded(args.jobs, [&](int shard, int nsh, Result &r) {
     std::string base = "sh" + std::to_string(shard) + "_dir";
     if (system(("rm -rf " + base + " && mkdir -p " + base).c_str()) || chdir(base.c_str()) != 0) { fprintf(stderr, "HARNESS-ERROR: scratch\n"); exit(2); }
@@ -986,6 +1080,10 @@ int main(int argc, char **argv)
         abf_explore(c, none, 0, r, stop, nexec, outcomes, cj);
         if (c.bound > 0) r.notes.push_back(cj + ": " + std::to_string(nexec) + " schedules, " + std::to_string(outcomes.size()) + " distinct final data set(s)");
         if (j < 3) r.sample(cj);
+      } else if (j >= abf.size() + mj.size() + offc.size()) {
+        WtCase const &c = wtc[j - abf.size() - mj.size() - offc.size()];
+        std::string cj = "{\"part\":\"multiple-walker metadynamics, well-tempered, both walkers at one bin centre\",\"replicaUpdateFrequency\":" + std::to_string(c.upd) + ",\"steps\":" + std::to_string(c.L) + ",\"order\":" + std::to_string(c.pattern) + "}";
+        meta_wt_run(c, "mw", r, cj);
       } else if (j >= abf.size() + mj.size()) {
         OffCase const &c = offc[j - abf.size() - mj.size()];
         std::string cj = "{\"part\":\"multiple-walker metadynamics, a walker outside the grid\",\"walker0_at\":" + num(c.a) + ",\"walker1_at\":" + num(c.b) + ",\"walker1_deposits\":" + (c.b_deposits ? "true" : "false") +
